@@ -365,6 +365,12 @@ func indexGet(index v1.Index, r ref.Ref) (descriptor.Descriptor, error) {
 	return descriptor.Descriptor{}, errs.ErrNotFound
 }
 
+// indexTagMatch reports whether a reference name annotation names the tag.
+// A full image name in the annotation is supported, matching how tags are listed and resolved.
+func indexTagMatch(name, tag string) bool {
+	return tag != "" && (name == tag || strings.HasSuffix(name, ":"+tag))
+}
+
 func indexSet(index *v1.Index, r ref.Ref, d descriptor.Descriptor) error {
 	if index == nil {
 		return fmt.Errorf("index is nil")
@@ -385,7 +391,7 @@ func indexSet(index *v1.Index, r ref.Ref, d descriptor.Descriptor) error {
 		if index.Manifests[i].Annotations != nil {
 			name = index.Manifests[i].Annotations[aOCIRefName]
 		}
-		if (name == "" && index.Manifests[i].Digest == d.Digest) || (r.Tag != "" && name == r.Tag) {
+		if (name == "" && index.Manifests[i].Digest == d.Digest) || indexTagMatch(name, r.Tag) {
 			index.Manifests[i] = d
 			pos = i
 			break
@@ -400,7 +406,7 @@ func indexSet(index *v1.Index, r ref.Ref, d descriptor.Descriptor) error {
 			}
 			// prune entries without any tag and a matching digest
 			// or entries with a matching tag
-			if (name == "" && index.Manifests[i].Digest == d.Digest) || (r.Tag != "" && name == r.Tag) {
+			if (name == "" && index.Manifests[i].Digest == d.Digest) || indexTagMatch(name, r.Tag) {
 				index.Manifests = slices.Delete(index.Manifests, i, i+1)
 			}
 		}
